@@ -93,12 +93,14 @@ class AsyncChannel(AsyncIterable[T]):
         self._waiting_receivers += 1
         try:
             result = await self._queue.get()
-            if result is self.__flush:
-                raise StopAsyncIteration
-            return result
         finally:
             self._waiting_receivers -= 1
-            self._queue.task_done()
+        # only an item that was actually taken from the queue is marked as done:
+        # a cancelled or timed out get() has not taken one
+        self._queue.task_done()
+        if result is self.__flush:
+            raise StopAsyncIteration
+        return result
 
     def closed(self) -> bool:
         """
@@ -164,12 +166,13 @@ class AsyncChannel(AsyncIterable[T]):
         self._waiting_receivers += 1
         try:
             result = await self._queue.get()
-            if result is self.__flush:
-                return None
-            return result
         finally:
             self._waiting_receivers -= 1
-            self._queue.task_done()
+        # see __anext__: nothing was taken if get() was cancelled
+        self._queue.task_done()
+        if result is self.__flush:
+            return None
+        return result
 
     def close(self):
         """
